@@ -975,6 +975,14 @@ def entails(facts, need):
                 continue
             fes.append(d_ if a_[0] == "min" else d_.scale(-1))
             idx.append(-1)
+    # len(if c { &base[range] } else { base }) <= len(base): either branch is the base or a sub-slice of it that exists
+    for e in list(fes) + list(needs):
+        for a_ in list(e.m):
+            if isinstance(a_, tuple) and len(a_) == 2 and a_[0] == "len":
+                b_ = _ite_slice_base(a_[1])
+                if b_ is not None:
+                    fes.append(Lin(0, {("len", b_): 1}).add(Lin(0, {a_: 1}), -1))
+                    idx.append(-1)
     used = []
     for ne in needs:
         j = entails_lin(fes, ne)
@@ -982,6 +990,31 @@ def entails(facts, need):
             return None
         used += [idx[i] for i in j[1] if idx[i] >= 0]
     return ("lin", sorted(set(used)))
+
+
+def _unref(x):
+    while isinstance(x, tuple) and x and x[0] in ("ref", "deref") and isinstance(x[1], tuple):
+        x = x[1]
+    return x
+
+
+def _ite_slice_base(x):
+    """x = if c { A } else { B } where each of A, B is one slice `base` or a sub-slice of it (base[range], sub(base, ..)) -> base"""
+    x = _unref(x)
+    if not (isinstance(x, tuple) and x and x[0] == "ite" and len(x) == 4):
+        return None
+
+    def base_of(v):
+        v = _unref(v)
+        if v[0] == "sub":
+            return _unref(v[1])
+        if v[0] == "call" and len(v[2]) == 2 and str(v[1]).startswith("core::slice::index::<impl core::ops::index::Index<core::ops::range::"):
+            return _unref(v[2][0])
+        return v
+    a, b = base_of(x[2]), base_of(x[3])
+    if a == b and (a == _unref(x[2]) or a == _unref(x[3])):
+        return strip(a)
+    return None
 
 
 # ------------------------------------------------------------------------- normal forms for matching
